@@ -41,7 +41,10 @@ def strategy_(draw, tier):
             "reach": draw(st.sampled_from(["abs", "rel", "dotrel", "via_link_dir", "via_link_chain"])),
             "uid": draw(st.sampled_from([1000, 0])),
             "top": draw(st.sampled_from(["absent", "sticky", "absent", "xdev_fallback"])),
-            "opts": draw(st.sampled_from([[], ["-v"], ["-f"], ["-r"], ["-d"]]))}
+            "opts": draw(st.sampled_from([[], ["-v"], ["-f"], ["-r"], ["-d"]])),
+            # an earlier argument of the same invocation that is reached through the link
+            # (state kept between arguments must not change what 'link/' means)
+            "through_first": draw(st.integers(0, 3)) == 0}
 
 
 def strategy(tier):
@@ -97,21 +100,36 @@ def run_case(case):
             "now": "2022-02-02T02:02:02"}
     sandbox.build_world(spec)
     before = sandbox.snapshot()
-    res = runner.run(spec, "trash-put", xopts + case["opts"] + ["--", arg])
+    first = []
+    if case.get("through_first") and case["target"] in ("tree", "link_to_dir") and case["reach"] in ("abs", "rel", "dotrel"):
+        # 'L/a' is a file inside the link's target directory, named through the link
+        first = [arg.rstrip("/") + "/a"]
+    res = runner.run(spec, "trash-put", xopts + case["opts"] + ["--"] + first + [arg])
     after = sandbox.snapshot()
     crossvol = case["link_vol"] != case["target_vol"] and case["target"] not in ("self", "dotdot")
     tags = dict(target=case["target"], slashes=min(case["slashes"], 1), crossvol=crossvol)
     ident = putcheck.identity(before, arg, cwd)
     named = ident is not None and ident[1] == L
-    out.classes += ["top:" + case["top"], "target:" + case["target"], "form:" + case["form"], "reach:" + case["reach"],
+    out.classes += ["through_first:%s" % bool(first), "top:" + case["top"], "target:" + case["target"], "form:" + case["form"], "reach:" + case["reach"],
                     "slashes:%d" % case["slashes"], "crossvol:%s" % crossvol, "exit:%d" % res.code,
                     "named:%s" % named]
     # targets are never touched, whatever happens
     for t in (TD,):
-        if subtree(after, t) != subtree(before, t):
+        bt, at = subtree(before, t), subtree(after, t)
+        if first:
+            for k in ("tree/a", "tree"):
+                bt.pop(k, None)
+                at.pop(k, None)
+        if at != bt:
             out.fail("target_touched", "the link's target area %s changed: %s" % (
                 t, sorted(set(subtree(before, t).items()) ^ set(subtree(after, t).items()))[:3]), **tags)
     pa = putcheck.PutAnalysis(before, after, sandbox.read_bytes, vols)
+    if first:
+        fid = putcheck.identity(before, first[0], cwd)
+        if fid is not None:
+            fs_, finfo = pa.state_of(fid[1])
+            if fs_ == "X":
+                out.fail("companion_not_conserved", "first argument %r: %s" % (first[0], finfo), **tags)
     if not named:
         # the spelling names nothing (or not the link): nothing may change and it must be refused
         if after != before and not only_skeleton(before, after):
@@ -142,7 +160,12 @@ def run_case(case):
             if subtree(fin, L) != subtree(before, L):
                 out.fail("restore_not_identical", "restore gave %s, original %s (exit %d, stderr %r)" % (
                     subtree(fin, L), subtree(before, L), r2.code, r2.err[-200:]), **tags)
-            if subtree(fin, TD) != subtree(before, TD):
+            bt2, ft2 = subtree(before, TD), subtree(fin, TD)
+            if first:
+                for k in ("tree/a", "tree"):
+                    bt2.pop(k, None)
+                    ft2.pop(k, None)
+            if ft2 != bt2:
                 out.fail("target_touched", "restore changed the target area", **tags)
         else:
             lstat_ok = case["slashes"] == 0 or (
@@ -158,7 +181,7 @@ def run_case(case):
     out.classes.append("state:" + state)
     out.key = [case["target"], case["form"], case["link_vol"], case["target_vol"],
                min(case["slashes"], 2), case["reach"], gen.name_class(case["name"]), state,
-               case["top"] == "xdev_fallback"]
+               case["top"] == "xdev_fallback", bool(first)]
     out.sample = {"link": L, "text": text, "arg": arg, "state": state, "exit": res.code}
     return out
 
